@@ -158,8 +158,10 @@ func Analyze(b []byte, honour map[int]int) (*Frame, error) {
 	if last.Tag != 10 {
 		return nil, fmt.Errorf("does not end with CheckSum (last tag %d)", last.Tag)
 	}
-	headLen := len("8=") + len(fs[0].Value) + 1 + len("9=") + len(fs[1].Value) + 1
-	tailLen := len("10=") + len(last.Value) + 1
+	// positions, not re-serialised lengths: a tag may be written non-canonically ("08=")
+	first := bytes.IndexByte(b, SOH)
+	headLen := first + 1 + bytes.IndexByte(b[first+1:], SOH) + 1
+	tailLen := len(b) - 1 - bytes.LastIndexByte(b[:len(b)-1], SOH)
 	fr := &Frame{
 		BeginString:    string(fs[0].Value),
 		DeclaredLength: string(fs[1].Value),
